@@ -6,6 +6,7 @@ import (
 	"encoding/json"
 	"fmt"
 	"os"
+	"os/exec"
 	"path/filepath"
 	"runtime"
 	"runtime/debug"
@@ -78,6 +79,9 @@ type WorkerResult struct {
 	WallS       float64        `json:"wall_s"`
 	Replay      *ReplayResult  `json:"replay,omitempty"`
 	MemAbort    string         `json:"mem_abort,omitempty"`
+	// Unreproducible: violation keys seen in this worker process that did not show up when the same run was
+	// replayed in a fresh process (count of such runs per key)
+	Unreproducible map[string]int `json:"unreproducible,omitempty"`
 }
 
 type ReplayResult struct {
@@ -89,15 +93,16 @@ type ReplayResult struct {
 }
 
 type worker struct {
-	t      *testing.T
-	spec   WorkerSpec
-	p      *Prop
-	res    *WorkerResult
-	hashes map[uint64]struct{}
-	pairs  map[uint64]struct{}
-	finds  map[string]*Finding
-	start  time.Time
-	tick   int
+	t       *testing.T
+	spec    WorkerSpec
+	p       *Prop
+	res     *WorkerResult
+	hashes  map[uint64]struct{}
+	pairs   map[uint64]struct{}
+	finds   map[string]*Finding
+	start   time.Time
+	tick    int
+	unrepro map[string]int
 }
 
 func (w *worker) timeUp() bool {
@@ -163,6 +168,13 @@ func (w *worker) account(label string, in RunInput, out RunOutput) {
 			f.Count++
 			continue
 		}
+		if w.unrepro[v.Key()] < 6 && !w.freshReplay(replayInput(in, out), v.Key()) {
+			// seen here, but not in a fresh process: this worker's process state is involved. Wait for a witness
+			// that stands on its own (a later run may contain the whole history); report the key as unconfirmed meanwhile.
+			w.unrepro[v.Key()]++
+			w.res.Unreproducible = w.unrepro
+			continue
+		}
 		f = &Finding{Key: v.Key(), Rule: v.Rule, Sig: v.Sig, Detail: v.Detail, Count: 1, FirstRun: label}
 		w.finds[v.Key()] = f
 		w.res.Findings = append(w.res.Findings, f)
@@ -187,6 +199,44 @@ func replayInput(in RunInput, out RunOutput) RunInput {
 		r.SinglePre, r.SingleTask = in.SinglePre, in.SingleTask
 	}
 	return r
+}
+
+// freshReplay runs a replay input in a fresh child process (this test binary re-executed) and reports
+// whether the violation key shows up there: state that earlier runs left behind in this worker process
+// (package-level variables of the code under test) must not be what a reported violation depends on.
+func (w *worker) freshReplay(rin RunInput, key string) bool {
+	dir, err := os.MkdirTemp(filepath.Dir(w.spec.Out), "fresh-")
+	if err != nil {
+		return false
+	}
+	defer os.RemoveAll(dir)
+	rule, sig, _ := strings.Cut(key, "|")
+	rf := ReplayFile{Property: w.p.ID, Input: rin, Expect: Expect{Rule: rule, Sig: sig}}
+	b, _ := json.Marshal(rf)
+	rfPath := filepath.Join(dir, "replay.json")
+	if os.WriteFile(rfPath, b, 0o644) != nil {
+		return false
+	}
+	spec := WorkerSpec{Property: w.p.ID, Tier: w.spec.Tier, Mode: "replay", ReplayFile: rfPath, Out: filepath.Join(dir, "out.json")}
+	sb, _ := json.Marshal(spec)
+	specPath := filepath.Join(dir, "spec.json")
+	if os.WriteFile(specPath, sb, 0o644) != nil {
+		return false
+	}
+	cmd := exec.Command(os.Args[0], "-test.run", "^TestWorker$", "-test.timeout", "5m")
+	cmd.Env = append(os.Environ(), "KMIPVERIF_SPEC="+specPath)
+	if err := cmd.Run(); err != nil {
+		return false
+	}
+	raw, err := os.ReadFile(spec.Out)
+	if err != nil {
+		return false
+	}
+	var res WorkerResult
+	if json.Unmarshal(raw, &res) != nil || res.Replay == nil {
+		return false
+	}
+	return res.Replay.Reproduced
 }
 
 func (w *worker) minimiseAndWrite(f *Finding, in RunInput, out RunOutput, v Violation, minimise bool) {
@@ -285,7 +335,7 @@ func TestWorker(t *testing.T) {
 	}
 	w := &worker{t: t, spec: spec, p: p, start: time.Now(),
 		res:    &WorkerResult{Property: spec.Property, Worker: spec.Worker, FloorRuns: map[string]int{}, Faults: map[string]int{}, Probes: map[string]int{}},
-		hashes: map[uint64]struct{}{}, pairs: map[uint64]struct{}{}, finds: map[string]*Finding{}}
+		hashes: map[uint64]struct{}{}, pairs: map[uint64]struct{}{}, finds: map[string]*Finding{}, unrepro: map[string]int{}}
 
 	switch spec.Mode {
 	case "replay":
